@@ -110,6 +110,37 @@ def runJob (j : Job) : IO String := do
     let sched := String.intercalate "," (r.schedule.map tidStr)
     return s!"ok status={r.status} ub={r.final.ub} steps={r.schedule.length} outputs={nout} items={items.length} itemsOk={okItems} thrEqSeq={same} logEqSeqLog={logEq} wf={wf false prog} sched={sched}"
 
+
+/-- phrase mode: write the lower bound `<pfx>.must<k>` (the lines `Tiles` obliges file `k` to contain,
+in the layout of the real output) -/
+def runPhrase (union ctx arpa : Bool) (vocab model : Bytes) (pfx : String) : IO String := do
+  let sents := readPhraseSentences vocab
+  let vs : Item → Verdict := fun it =>
+    let ws := words (if ctx then contextOf it.ngram else it.ngram)
+    if union then phraseMustUnion sents ws else phraseMust sents ws
+  let nout := if union then 1 else sents.length
+  let parsed : Except Err (Option Arpa × List Item) :=
+    if arpa then (parseArpa model).map fun a => (some a, a.orders.flatten)
+    else .ok (none, rawItems model)
+  match parsed with
+  | .error e => return s!"error {repr e}"
+  | .ok (arpa?, items) =>
+    for k in [0:nout] do
+      let bytes := match arpa? with
+        | some a => arpaFile a vs k
+        | none => rawFile items vs k
+      writeBytes s!"{pfx}.must{k}" bytes
+    -- the search graph (exact, absent hash collisions)
+    let vg : Item → Verdict := fun it =>
+      let ws := words (if ctx then contextOf it.ngram else it.ngram)
+      if union then phraseVerdictUnion sents ws else phraseVerdict sents ws
+    for k in [0:nout] do
+      let bytes := match arpa? with
+        | some a => arpaFile a vg k
+        | none => rawFile items vg k
+      writeBytes s!"{pfx}.graph{k}" bytes
+    return s!"ok outputs={nout} items={items.length} itemsOk={itemsOk items} sentences={sents.length}"
+
 def parseJob (ws : List String) : IO (Option Job) := do
   match ws with
   | ["job", variant, mode, ctx, fmt, threads, batch, seed, vocab, model, pfx] =>
@@ -126,6 +157,15 @@ def parseJob (ws : List String) : IO (Option Job) := do
 partial def mainLoop (h : IO.FS.Stream) : IO Unit := do
   let line ← h.getLine
   if line.isEmpty then return ()
+  match Proto.words line with
+  | ["pjob", mode, ctx, fmt, vocab, model, pfx] =>
+    let v ← readBytes vocab
+    let m ← readBytes model
+    let r ← runPhrase (mode = "union") (ctx = "1") (fmt = "arpa") v m pfx
+    IO.println r
+    (← IO.getStdout).flush
+    return ← mainLoop h
+  | _ => pure ()
   match ← parseJob (Proto.words line) with
   | none => IO.println "bad-op"
   | some j =>
